@@ -87,7 +87,7 @@ func resolveConstString(arg ast.Expr, pkg *packages.Package) (string, error) {
 	if err != nil {
 		return "", fmt.Errorf("can't resolve string at %s: %s", pkg.Fset.Position(arg.Pos()), exprString)
 	}
-	if tv.Value.Kind() != constant.String {
+	if tv.Value == nil || tv.Value.Kind() != constant.String {
 		return "", fmt.Errorf("expecting string at %s, got %s", pkg.Fset.Position(arg.Pos()), exprString)
 	}
 	return constant.StringVal(tv.Value), nil
@@ -140,15 +140,20 @@ func parseEndpointFunc(arg ast.Expr, pkg *packages.Package) (body *ast.BlockStmt
 			xObj := resolveIdentifier(ident, pkg.TypesInfo)
 			switch xObj := xObj.(type) {
 			case *types.PkgName: // top level function
-				fn := xObj.Imported().Scope().Lookup(method.Sel.Name)
-				return resolveFunc(pkg, fn.(*types.Func))
+				fn, ok := xObj.Imported().Scope().Lookup(method.Sel.Name).(*types.Func)
+				if !ok {
+					panic(fmt.Sprintf("unsupported handler %s.%s: not a function", ident.Name, method.Sel.Name))
+				}
+				return resolveFunc(pkg, fn)
 			case *types.Var: // method
 				// check for pointers
-				var ty *types.Named
-				if ptr, isPointer := xObj.Type().(*types.Pointer); isPointer {
-					ty = ptr.Elem().(*types.Named)
-				} else {
-					ty = xObj.Type().(*types.Named)
+				recv := types.Unalias(xObj.Type())
+				if ptr, isPointer := recv.(*types.Pointer); isPointer {
+					recv = types.Unalias(ptr.Elem())
+				}
+				ty, ok := recv.(*types.Named)
+				if !ok {
+					panic(fmt.Sprintf("unsupported handler receiver %s: not a named type", xObj.Type()))
 				}
 				return resolveFunc(pkg, selectMethod(ty, method.Sel.Name))
 			default:
